@@ -19,6 +19,12 @@ def TripleDES(key):
     n = len(key)
     if n not in (8, 16, 24):
         raise ValueError('Invalid key size (%d) for 3DES.' % (8 * n))
+    # TDEA keying options: a 16-byte key K1|K2 means K1|K2|K1, an 8-byte key K means K|K|K (one function on 192-bit keys)
+    key = SymBytes.of(key)
+    if n == 16:
+        key = key + key[0:8]
+    elif n == 8:
+        key = key + key + key
     return _Alg('3DES', key, 8)
 
 
@@ -121,5 +127,5 @@ class SecretsStub:
 def reference_E(alg_name, key_bytes, block_bv):
     """the same uninterpreted function, for oracles"""
     kb = SymBytes.of(key_bytes)
-    alg = _Alg(alg_name, kb, 8 if alg_name == '3DES' else 16)
-    return _fn(alg, 'E')(kb.bv(), block_bv)
+    alg = TripleDES(kb) if alg_name == '3DES' else _Alg(alg_name, kb, 16)
+    return _fn(alg, 'E')(alg.key.bv(), block_bv)
